@@ -63,6 +63,27 @@ def j_init_values_verbatim(F, X, rep, rid):
                     rep.ob(rid, ok, F.root_of(b), "integer option value is the JSON number's as_i64()", where=loc(s["sp"]), how=show(e)[:80],
                            detail="" if ok else "an integer option is stored as %s: a configured value that does not convert (negative, large) is not refused - the option's default is used instead" % show(e)[:100])
     rep.anchor(rid, "conversion of the init message's numbers into option values", n, 1)
+    # an option's default is taken only where lightningd sent no value for it
+    nd = 0
+    for b in F.code_bodies():
+        if "src/cln_plugin/" not in b.span.get("f", ""):
+            continue
+        for c in b.calls:
+            if c.noise or not c.name.endswith("Clone::clone") or "options::Value" not in (c.full or "") or not c.args:
+                continue
+            import model_msgs as mm_
+            e = strip(mm_.expand_params(F, X, strip(X.operand(b, c.args[0])), depth=2))     # (the match may sit in a helper taking both values)
+            if not any(y[0] == "call" and y[1].endswith("ConfigOption::default") for y in walk(e)):
+                continue
+            nd += 1
+            absent = False
+            for fe, truth, _c in lib.variant_facts(b, X, c.bb):
+                fx = strip(mm_.expand_params(F, X, strip(fe), depth=2))
+                if truth == ("None",) and any(y[0] == "call" and y[1].endswith("HashMap::get") and "options" in show(y) for y in walk(fx)):
+                    absent = True
+            rep.ob(rid, absent, F.root_of(b), "default used only for an option lightningd did not send", where=c.loc, how="under `options.get(name) == None`",
+                   detail="" if absent else "the option's default is taken at %s although lightningd may have sent a value: the configured value is ignored (and an out-of-range one is not refused)" % c.loc)
+    rep.anchor(rid, "use of an option's default in the init handler", nd, 1)
 
 
 def main_body(F):
